@@ -71,7 +71,13 @@ def tok_program(mac, ds, rich):
         for k in range(1, d):
             cb = "|t: Tok| { ev(\"%d.%d.f\", &t); %s }" % (b, k, out(k, "t.next(%d)" % k))
             main = B("ev0(\"c.%d.%d.1\"); move %s" % (k, b, cb)) if rich else O(cb)
-            if is_try:
+            dw = rich and is_try and not is_async and k % 2 == 0
+            if dw:
+                # even steps START with a deferred, explicitly closed wrapper (the `~` belongs to the wrapper operator); its inner
+                # callbacks belong to this step: they must not run when the previous step failed
+                items.append(Wrap("|>", [Op("->", [O("|t: Tok| { ev(\"%d.%d.w\", &t); t.next(6) }" % (b, k))])], deferred=True, close=True))
+                items.append(Op("=>", [main]))
+            elif is_try:
                 items.append(Op("=>", [main], deferred=True))
             elif is_async:
                 items.append(Op("|>", [main], deferred=True))
